@@ -211,6 +211,16 @@ PX("C07", "C07_mailbox", "Every request terminates: the shutdown of an actor's m
  ("C07_mailbox_old_strands", "old_strands", "with the plain drop of the receiver (the code before the fix) one sender is enough: reserve, close, gone, push - the message is in a channel nobody reads and its sender is never answered (the hang harness nsstress found on the multi-thread runtime)"),
  ("C07_mailbox_new_same_schedule", "new_same_schedule", "on that schedule the orderly receiver cannot leave while the slot is outstanding; it takes the late message out and only then goes"),
 ])
+HDR_RR = "From Coq Require Import List Bool.\nImport ListNotations.\nFrom Deltio Require Import Model.ReqResp Proofs.ReqRespP.\n"
+RR_ITEMS = lambda pid, what: [
+ (pid + "_call_applied_on_return", "wait_applied_on_return", "one request to an actor at the granularity send / other clients' requests / serve the oldest request / receive the answer / the actor takes the expiry branch of its select!, every schedule of these events: with the caller waiting for the actor's answer (the code) the call has returned only after the actor applied the " + what + ", and the actor never took the expiry branch between the return and the application"),
+ (pid + "_served_in_order", "served_in_order", "requests are served in mailbox order: serving takes the oldest request; the caller's own is applied only when it is the oldest"),
+ (pid + "_fire_and_forget_refuted", "fire_refuted", "a caller that returns as soon as its request is queued (seeded change C02-r8): the call returns, the deadline passes, the actor takes the expiry branch first - it acts on a delivery the caller was told is gone (on the implementation: the late-ack stream)"),
+ (pid + "_fire_returns_unapplied", "fire_returns_unapplied", "such a call has returned with its request still behind another one in the mailbox"),
+ (pid + "_wait_same_schedule", "wait_same_schedule", "the same schedule with the code's protocol: the answer cannot be received before the request was served; the expiry that comes first is not stale, because the call has not returned"),
+]
+PX("C02", "C02_return", "Acknowledgement is final and affects only that delivery: what 'Acknowledge has returned' means", HDR_RR, "ReqRespP.v", RR_ITEMS("C02", "acknowledgement"))
+PX("C05", "C05_return", "ModifyAckDeadline: the new deadline is in force when the call returns", HDR_RR, "ReqRespP.v", RR_ITEMS("C05", "modification"))
 HDR_PPASS = "From Coq Require Import List Arith Bool NArith.\nImport ListNotations.\nFrom Deltio Require Import Model.PushPass Proofs.PushPassP.\n"
 PX("C14", "C14_pass_deletion", "Push subscriptions deliver at least once until the endpoint accepts: a pass under way stops when the subscription is deleted", HDR_PPASS, "PushPassP.v", [
  ("C14_pass_no_post_after_delete", "whole_no_late_post", "one pass of the push loop at the granularity pull / dispatch one message / answer / finish / the deleted signal fires, every schedule of these events (events that are not enabled are skipped), any page: with the whole pass raced against the deletion signal (the code) no POST is made once the subscription is deleted"),
